@@ -6,7 +6,9 @@
                     with -b: no output line is required, status 0 / 1 for true / false, 2 for any other value or an error.
      NDJSON mode  : ProcessDoc(k) for each stdin line k, in order:
                       line_k   = JSON of Eval(expr, doc_k)          (depends on doc_k only; an evaluation error prints null)
-                      status_k = with -b: 0 / 1 for true / false; otherwise 0        (a non-boolean under -b: not fixed -> Indef)
+                      status_k = with -b: 0 / 1 for true / false; otherwise 0
+                                 (a non-boolean under -b: the statement's "2 for any other value" read per document, or 0 as for a run
+                                  without -b -- both readings are admitted, nothing else is: the status is a pair <<lo, hi>>)
                       a line that is not JSON: status_k = 3 (and no output line)
                     exit status = the worst (maximum) per-document status.
      -s           : all of stdin is one document.
@@ -21,12 +23,16 @@ Result(expr, args, d) == Eval(expr, << <<"jq", ToCel(d)>> >> \o args)
 NoLine == [j |-> "noline"]
 LineOf(expr, args, d) == IF ~IsJson(d) THEN NoLine
                          ELSE LET v == Result(expr, args, d) IN IF IsErr(v) THEN JNull ELSE IF IsIndef(v) THEN [j |-> "indef"] ELSE Encode(v)
-DocStatus(expr, args, d, b) == IF ~IsJson(d) THEN 3
+DocStatusNB(expr, args, d, b, nb) == IF ~IsJson(d) THEN 3
                                ELSE IF ~b THEN 0
-                               ELSE LET v == Result(expr, args, d) IN IF IsTrue(v) THEN 0 ELSE IF IsFalse(v) THEN 1 ELSE StatusIndef
-RECURSIVE Lines(_,_,_), Worst(_,_,_,_)
+                               ELSE LET v == Result(expr, args, d) IN IF IsTrue(v) THEN 0 ELSE IF IsFalse(v) THEN 1 ELSE IF IsIndef(v) THEN StatusIndef ELSE nb    \* an error or a non-boolean
+DocStatus(expr, args, d, b) == DocStatusNB(expr, args, d, b, 0)
+RECURSIVE Lines(_,_,_), WorstNB(_,_,_,_,_)
 Lines(expr, args, docs) == IF docs = <<>> THEN <<>> ELSE <<LineOf(expr, args, docs[1])>> \o Lines(expr, args, Tail(docs))
-Worst(expr, args, docs, b) == IF docs = <<>> THEN 0 ELSE Max2(DocStatus(expr, args, docs[1], b), Worst(expr, args, Tail(docs), b))
+WorstNB(expr, args, docs, b, nb) == IF docs = <<>> THEN 0 ELSE Max2(DocStatusNB(expr, args, docs[1], b, nb), WorstNB(expr, args, Tail(docs), b, nb))
+\* the admitted exit statuses <<lo, hi>> (equal unless some document gives a non-boolean under -b)
+Worst(expr, args, docs, b) == <<WorstNB(expr, args, docs, b, 0), WorstNB(expr, args, docs, b, 2)>>
+StatusOK(st, got) == StatusIndef \in {st[1], st[2]} \/ got \in {st[1], st[2]}
 \* -n mode
 NullInputLine(expr, args, b) == LET v == Eval(expr, args) IN IF b THEN NoLine ELSE IF IsErr(v) THEN NoLine ELSE IF IsIndef(v) THEN [j |-> "indef"] ELSE Encode(v)
 NullInputStatus(expr, args, b) == LET v == Eval(expr, args) IN
